@@ -31,6 +31,12 @@ EJ = z3.Function('EJ', VL, VL)
 EJN = z3.Function('EJN', VL, VL)
 RS = z3.Function('RS', VL, VL)                            # remove_scaling(v, scaling_changes)
 COLDIV = z3.Function('COLDIV', VL, z3.IntSort(), VL)      # J with column i divided by scaling_changes[1][i]
+SUMSQV = z3.Function('SUMSQ', VL, VL)                     # sumsq(v)
+HVAL = z3.Function('HVAL', VL, VL)                        # h(u, *argsh)   (A-callback: h is a deterministic function of its argument)
+ADDV = z3.Function('ADDV', VL, VL, VL)                    # a + b on opaque float values (a function of the two values)
+LEQV = z3.Function('LEQ', VL, VL, z3.BoolSort())          # a <= b on opaque float values (uninterpreted: only congruence is used)
+OFNUM = z3.Function('OFNUM', z3.RealSort(), VL)           # a tracked number read as a float
+MINOBJ = z3.Function('MINOBJ', z3.IntSort(), VL)          # model.min_objective_value() = max(abs_tol, rel_tol * objbeg) of model version v
 UNSC = z3.RecFunction('UNSC', VL, z3.IntSort(), VL)       # columns 0..i-1 un-scaled, in order
 _j, _i = z3.Const('j_', VL), z3.Int('i_')
 z3.RecAddDefinition(UNSC, [_j, _i], z3.If(_i <= 0, _j, COLDIV(UNSC(_j, _i - 1), _i - 1)))
@@ -109,7 +115,8 @@ class LedgerDomain(ParamsMixin, Domain):
         self.install_ledger_builtins()
         self.builtins['remove_scaling'] = lambda eng, n, a, k, st: RS(a[0]) if isval(a[0]) else UNK
         self.spec_funcs = {'UNSC': UNSC, 'COLDIV': COLDIV, 'EX': EX, 'ER': ER, 'EO': EO, 'ENS': ENS, 'EEN': EEN, 'EJ': EJ, 'EJN': EJN, 'RS': RS, 'ABS': ABS, 'SUBBASE': SUBBASE, 'ROW': ROW, 'MEANV': MEANV, 'REC_X': REC_X, 'REC_R': REC_R, 'REC_NS': REC_NS,
-                           'REC_EN': REC_EN, 'NPT': NPT}
+                           'REC_EN': REC_EN, 'NPT': NPT,
+                           'SUMSQ': SUMSQV, 'HVAL': HVAL, 'ADDV': ADDV, 'LEQ': LEQV, 'OFNUM': OFNUM, 'MINOBJ': MINOBJ}
 
     def name_shape(self, name):
         if name in ('x', 'xnew', 'new_point', 'rvec_list', 'base_shift', 'x0', 'r0_avg', 'rvec', 'obj', 'obj0_avg', 'xmin', 'rmin', 'objmin',
@@ -149,6 +156,8 @@ class LedgerDomain(ParamsMixin, Domain):
             z3.is_true(z3.simplify(self.truth(k.get('abs_coordinates', a[1] if len(a) > 1 else z3.BoolVal(False)), st))) else z3.Const(fresh_name('xopt'), VL)
         b['Model.ropt'] = lambda eng, n, a, k, st: REC_R(st.heap[('G', 'mver')])
         b['Model.npt'] = lambda eng, n, a, k, st: NPT(st.heap[('G', 'nptver')])
+        b['sumsq'] = lambda eng, n, a, k, st: SUMSQV(a[0]) if a and isval(a[0]) else UNK
+        b['Model.min_objective_value'] = lambda eng, n, a, k, st: MINOBJ(st.heap[('G', 'mver')])
 
     def spec_call(self, eng, name, e, st):
         if name == 'newent':
@@ -236,6 +245,8 @@ class LedgerDomain(ParamsMixin, Domain):
             if z3.is_app(a) and a.decl().name() == 'ABS':
                 st.assume(z3.Implies(a.arg(0) == b.g, ABS(b.g, r) == a))
             return r
+        if op == '+' and isval(a) and isval(b):
+            return ADDV(a, b)
         if isval(a) or isval(b):
             return z3.Const(fresh_name('v'), VL)
         return Domain.binop(self, op, a, b, st, node)
@@ -248,6 +259,8 @@ class LedgerDomain(ParamsMixin, Domain):
     def compare(self, op, a, b, st, node=None):
         if isval(a) and isval(b) and op in ('==', '!='):
             return (a == b) if op == '==' else (a != b)
+        if op == '<=' and isval(a) and (isval(b) or isint(b) or isreal(b)):
+            return LEQV(a, b if isval(b) else OFNUM(z3.ToReal(b) if isint(b) else b))
         return Domain.compare(self, op, a, b, st, node)
 
     def is_same(self, a, b, st):
@@ -272,6 +285,10 @@ class LedgerDomain(ParamsMixin, Domain):
     def init_state(self, st, fi, con):
         Domain.init_state(self, st, fi, con)
         self.params_init(st)
+        # the two float tolerances of the small-objective test are opaque values (updates havoc them like any other entry)
+        for key in ('model.abs_tol', 'model.rel_tol'):
+            if key in self.repo.param_defaults:
+                st.heap[('params', key)] = z3.Const(fresh_name('P_' + key), VL)
 
     def b_params(self, eng, node, args, kw, st):
         return self.params_get(eng, node, args, kw, st)
@@ -323,6 +340,8 @@ class LedgerDomain(ParamsMixin, Domain):
             st.heap[g] = st.heap[g] + 1
             eng.oblige(st, st.heap[g] <= st.heap[('G', 'maxfun')], 'call', 'objfun:calls <= maxfun', ['C02', 'C08'], e.lineno)
             return UNK
+        if cb.name == 'h' and args and isval(args[0]):
+            return HVAL(args[0])
         return Domain.callback(self, eng, cb, e, args, kwargs, st)
 
     # --------------------------------------------------------------------------------------------- loops
